@@ -13,6 +13,7 @@ extern "C" {
     fn riti_config_new() -> *mut Config;
     fn riti_config_free(ptr: *mut Config);
     fn riti_config_set_layout_file(ptr: *mut Config, path: *const c_char) -> bool;
+    fn riti_config_set_database_dir(ptr: *mut Config, path: *const c_char) -> bool;
     fn riti_config_set_phonetic_suggestion(ptr: *mut Config, o: bool);
     fn riti_config_set_fixed_suggestion(ptr: *mut Config, o: bool);
     fn riti_config_set_fixed_old_kar_order(ptr: *mut Config, o: bool);
@@ -146,6 +147,49 @@ fn ffi_life_cycles() {
         riti_suggestion_free(std::ptr::null_mut());
         riti_context_free(std::ptr::null_mut());
         riti_config_free(std::ptr::null_mut());
+    }
+}
+
+/// update_engine on a live handle with a configuration in which the data directory, the options and finally the layout
+/// (method switch) differ from the one the context was created with: the handle stays valid, nothing is leaked
+unsafe fn reconfigure_cycle() {
+    let cfg = riti_config_new();
+    let l = CString::new("avro_phonetic").unwrap();
+    assert!(riti_config_set_layout_file(cfg, l.as_ptr()));
+    riti_config_set_phonetic_suggestion(cfg, true);
+    let ctx = riti_context_new_with_config(cfg);
+    let mut kept = Vec::new();
+    let s = riti_get_suggestion_for_key(ctx, VC_A, 0, 0);
+    kept.push((s, read_out(s)));
+    riti_context_finish_input_session(ctx);
+    // another data directory (a small one, data/mini_db) + option flips
+    let db = CString::new(std::env::var("VERIF_MINI_DB").unwrap()).unwrap();
+    assert!(riti_config_set_database_dir(cfg, db.as_ptr()));
+    riti_config_set_suggestion_include_english(cfg, true);
+    riti_context_update_engine(ctx, cfg);
+    let s = riti_get_suggestion_for_key(ctx, VC_A, 0, 0);
+    kept.push((s, read_out(s)));
+    riti_context_finish_input_session(ctx);
+    // another layout: the method object is replaced behind the same handle
+    let l2 = CString::new(std::env::var("VERIF_SYNTH_LAYOUT").unwrap()).unwrap();
+    assert!(riti_config_set_layout_file(cfg, l2.as_ptr()));
+    riti_context_update_engine(ctx, cfg);
+    let s = riti_get_suggestion_for_key(ctx, 0xA0A9, 0, 0);
+    kept.push((s, read_out(s)));
+    riti_context_update_engine(ctx, cfg);
+    riti_context_free(ctx);
+    riti_config_free(cfg);
+    for (s, strings) in kept {
+        riti_suggestion_free(s);
+        recheck_and_free(strings);
+    }
+}
+
+#[test]
+fn ffi_reconfigure_life_cycle() {
+    unsafe {
+        std::env::set_var("XDG_DATA_HOME", "/nonexistent/riti-verif-miri");
+        reconfigure_cycle();
     }
 }
 
